@@ -50,6 +50,7 @@ type Scenario struct {
 	BoundMs int       `json:"boundMs"`
 	Sched   *SchedCase `json:"sched,omitempty"`
 	Race    *RaceCase  `json:"race,omitempty"`
+	Pipe    *PipeCase  `json:"pipe,omitempty"`
 	// LingerAt: every goroutine reaching this yield point sleeps LingerUs there (widens a window)
 	LingerAt string `json:"lingerAt,omitempty"`
 	LingerUs int    `json:"lingerUs,omitempty"`
